@@ -164,6 +164,16 @@ def pf_stock(sc):
         iok, iworst, iwhere = ybus.verdict(ss)
         rec["indep_ok"] = bool(iok is not False)
         rec["indep"] = [iworst, iwhere, "decided" if iok is not None else "undecided"]
+        rec["source_ok"] = True
+        if sc["case"].endswith((".m", ".raw")):
+            # the third-party source file read independently (vh/srcread.py) must balance at the reported voltages
+            from . import srcread
+            from .common import case_path
+            net = srcread.read_source(case_path(sc["case"]))
+            V = {idx: ss.Bus.v.v[k] * np.exp(1j * ss.Bus.a.v[k]) for k, idx in enumerate(ss.Bus.idx.v)}
+            r = srcread.source_balance(net, V, tol=float(ss.PFlow.config.tol))
+            rec["source_ok"] = bool(r["undecided"] or not r["bad"])
+            rec["source"] = dict(checked=r["checked"], worst=r["worst"], bad=r["bad"][:4], undecided=r["undecided"][:3])
     return rec
 
 
